@@ -43,7 +43,7 @@ def exec_case(case):
     events = []
     for ev in case["events"]:
         e = dict(ev)
-        e.update({"exc": "", "parent": [], "children": [], "edges": [], "bfs": [], "dfs": [], "roots": [], "trees": [], "W": []})
+        e.update({"exc": "", "parent": [], "children": [], "edges": [], "bfs": [], "dfs": [], "roots": [], "trees": [], "edges2": [], "tedges": [], "W": []})
         try:
             ne, nf, nc = len(g["E"]), len(g["F"]), len(g["C"])
             size = {"vertices": g["n"], "faces": nf, "cells": nc}[ev["over"]]
@@ -94,6 +94,9 @@ def exec_case(case):
                 e["roots"] = [int(r) for r in Fo.roots]
                 e["trees"] = [[int(a) for a, _ in t.traverse()] for t in Fo.trees]
                 e["edges"] = [[int(a), int(b)] for a, b in Fo.edges]
+                # the list a forest hands out is the caller's: reading it again, or the trees' own lists afterwards, gives the same answers
+                e["edges2"] = [[int(a), int(b)] for a, b in Fo.edges]
+                e["tedges"] = [[[int(a), int(b)] for a, b in t.edges] for t in Fo.trees]
             else:
                 raise ValueError(ev["op"])
         except Exception as ex:
